@@ -217,9 +217,45 @@ int cmdSamples(int argc, char** argv) {
 			derived.push_back({k, NiVersion(NiFileVersion::V20_2_0_7, 12, 173), "Starfield stream 173"});
 	}
 	size_t plain = files.size() * per;
+	size_t nder = derived.size();
 	size_t crashes = runForkedCases(
-		plain + derived.size(), outPath, 120,
+		plain + nder + 2 * files.size(), outPath, 120,
 		[&](size_t i, std::string& out) {
+			if (i >= plain + nder) {
+				// two more inputs per sample: one block type relabelled so that the library holds those blocks as opaque ones
+				// (files with types it does not know are files it accepts), and skin partitions that declare their triangles
+				// but store no face list
+				size_t j = i - plain - nder, k = j / 2;
+				std::string f0 = readFile(samplePath(files[k]));
+				JObj c;
+				c.add("file", files[k]).add("variant", (long long) (300 + j)).add("seed", (long long) seed);
+				if (j % 2 == 0) {
+					HeaderInfo h = parseHeader(f0);
+					if (!h.ok || !h.hasSizes || h.types.empty()) return;
+					const std::string t = h.types[(seed + k) % h.types.size()];
+					if (!relabelTypes(f0, {t})) return;
+					c.add("as", "type " + t + " relabelled unknown");
+				}
+				else {
+					NifFile nif;
+					if (loadFromString(nif, f0) != 0) return;
+					size_t changed = 0;
+					for (uint32_t b = 0; b < nif.GetHeader().GetNumBlocks(); b++)
+						if (auto sp = nif.GetHeader().GetBlock<NiSkinPartition>(b))
+							for (auto& p : sp->partitions)
+								if (p.hasFaces && p.numStrips == 0 && p.numTriangles > 0 && !nif.GetHeader().GetVersion().IsSSE()) {
+									p.hasFaces = false;
+									changed++;
+								}
+					if (!changed) return;
+					markPhase(1);
+					f0 = saveToString(nif, false, false);
+					c.add("as", "skin partitions without a stored face list");
+				}
+				markPhase(2);
+				out += roundTrip(f0, c.done());
+				return;
+			}
 			if (i >= plain) {
 				const Derived& d = derived[i - plain];
 				JObj c;
@@ -333,6 +369,12 @@ int cmdSamples(int argc, char** argv) {
 		},
 		[&](size_t i, const std::string& why, FILE* out) {
 			int ph = lastCrashPhase();
+			if (i >= files.size() * per + derived.size()) {
+				size_t j = i - files.size() * per - derived.size();
+				fprintf(out, "{\"e\":\"%s\",\"case\":{\"file\":%s,\"variant\":%zu},\"why\":%s,\"phase\":%d}\n", ph < 2 ? "discard" : "crash", J::str(files[j / 2]).s.c_str(), 300 + j,
+						J::str(why).s.c_str(), ph);
+				return;
+			}
 			bool der = i >= files.size() * per;
 			fprintf(out, "{\"e\":\"%s\",\"case\":{\"file\":%s,\"variant\":%zu},\"why\":%s,\"phase\":%d}\n", (der || (i % per) > 0) && ph < 2 ? "discard" : "crash",
 					J::str(files[der ? derived[i - files.size() * per].file : i / per]).s.c_str(), der ? 100 + i - files.size() * per : i % per, J::str(why).s.c_str(), ph);
